@@ -1,5 +1,5 @@
 CONSTANTS Budget = 2 MaxItems = 1 Sim = FALSE Headers = "plain"
-  Masked = {"pas_var"}
+  Masked = {}
 SPECIFICATION Spec
 INVARIANTS PendingInvisible TargetsAreBinders Balanced ScopeDeclarative RenameComplete EmitCase
 CHECK_DEADLOCK FALSE
